@@ -94,6 +94,18 @@ func main() {
 		sort.Strings(sels)
 		fmt.Println(strings.Join(sels, "\n"))
 		return
+	case "fns":
+		for _, fn := range w.allFns {
+			n := shortName(fn.String())
+			if *only == "" || strings.Contains(n, *only) {
+				var ps []string
+				for _, p := range fn.Params {
+					ps = append(ps, p.Name())
+				}
+				fmt.Printf("%-70s synthetic=%q params=%v blocks=%d\n", n, fn.Synthetic, ps, len(fn.Blocks))
+			}
+		}
+		return
 	case "mods":
 		w.computeMods()
 		if fn := w.fns[*only]; fn != nil {
@@ -391,6 +403,11 @@ func report(verif, prop, tier string, seed int, results []*FuncResult, obs []*Ob
 		eb, _ := json.MarshalIndent(ev, "", " ")
 		os.MkdirAll(filepath.Join(verif, "evidence"), 0o755)
 		os.WriteFile(filepath.Join(verif, "evidence", prop+".json"), eb, 0o644)
+	}
+	for _, ob := range obs {
+		if ob.Seconds > 3 && ob.Status == "unsat" && !ob.Cover {
+			fmt.Printf("govc: slow obligation %.1fs %s (%s)\n", ob.Seconds, ob.Name, ob.Backend)
+		}
 	}
 	for _, l := range knownLines {
 		fmt.Println(l)
